@@ -88,6 +88,8 @@ type summary struct {
 	Sites       int            `json:"sites"`
 	OpKinds     map[string]int `json:"op_kinds"`
 	MaxOpSteps  uint64         `json:"max_op_steps"`
+	BigCalls    uint64         `json:"big_calls"`
+	BigCost     uint64         `json:"big_cost"`
 	Violations  int            `json:"violations"`
 	WallS       float64        `json:"wall_s"`
 	Samples     []*sim.Program `json:"samples,omitempty"`
@@ -652,7 +654,7 @@ func writeEvidence(cfg tierCfg, sums []summary, wall float64, nViol, raceRuns, r
 	faults := map[string]int{}
 	opKinds := map[string]int{}
 	var runs, ops, faulty, clean, noerr, siteTotal int
-	var steps, switches, preempts, maxOp, syncPre, fairYields uint64
+	var steps, switches, preempts, maxOp, syncPre, fairYields, bigCalls, bigCost uint64
 	sharedIn := 0
 	var samples []any
 	var trace []string
@@ -660,6 +662,8 @@ func writeEvidence(cfg tierCfg, sums []summary, wall float64, nViol, raceRuns, r
 		runs += s.Runs
 		ops += s.Ops
 		steps += s.Steps
+		bigCalls += s.BigCalls
+		bigCost += s.BigCost
 		switches += s.Switches
 		preempts += s.Preempts
 		syncPre += s.SyncPre
@@ -750,6 +754,9 @@ func writeEvidence(cfg tierCfg, sums []summary, wall float64, nViol, raceRuns, r
 			"op_kinds":                              opKinds,
 			"max_steps_of_one_operation":            maxOp,
 			"step_budget":                           budget,
+			"math_big_calls_charged":                bigCalls,
+			"math_big_steps_charged":                bigCost,
+			"math_big_note":                         "the superlinear operations of *big.Int/*big.Rat inside the library are charged to the logical clock before they run (schoolbook upper bound from the operands' sizes), so work inside math/big counts towards the step budget",
 			"race_build_runs":                       raceRuns,
 			"race_reports":                          raceReports,
 			"alt_toolchain_runs":                    altRuns,
